@@ -39,11 +39,23 @@ type trSys struct {
 	streams    []*trStream
 	prop       string
 	violated   bool
+	keep       bool // stalled threads stay stalled across driver events
+	kills      int
+}
+
+func (t *trSys) settle() {
+	if t.keep {
+		vs.QuiesceKeep()
+	} else {
+		vs.Quiesce()
+	}
 }
 
 type trLong struct {
-	c    *ucall
-	addr string
+	c     *ucall
+	addr  string
+	kills   int // number of kills when it was started
+	budget0 int // dead pooled connections not yet used up when it was started
 }
 
 type trStream struct {
@@ -100,7 +112,14 @@ func (t *trSys) idleLen(addr string) (int, bool) {
 // checkLimits is the C13 oracle, evaluated at every dial and at every quiescent point.
 func (t *trSys) checkLimits(when string) {
 	for _, a := range []string{"a", "b"} {
-		if live := t.n.live[a]; live > t.effConns {
+		// connections the peer has already closed are dead sockets waiting for their owner's Close: not counted
+		live := 0
+		for _, c := range t.n.conns {
+			if c.addr == a && !c.end.p.closed[0] && !c.end.p.closed[1] && !c.end.p.dead && !c.end.p.reset {
+				live++
+			}
+		}
+		if live > t.effConns {
 			t.x.Fail("C13/max-conns-exceeded", "%d connections to %q are open %s, MaxConnsPerHost is %d (configured %d); events so far: %v", live, a, when, t.effConns, t.maxConns, t.log)
 		}
 		if n, ok := t.idleLen(a); ok && n > t.effIdle {
@@ -151,6 +170,8 @@ func (t *trSys) call(addr string, form int) error {
 		if t.up[addr] {
 			t.x.Fail("C14/errdial-while-up", "a call to %q failed with ErrDial although the server is reachable; events: %v", addr, t.log)
 		}
+	case t.keep && (err == io.EOF || err == errBrokenPipe):
+		// a stalled reader has not noticed the loss yet: the write error of the call itself, not judged
 	case err == rpc.ErrShutdown || err == io.EOF || err == errBrokenPipe:
 		if t.deadBudget[addr] <= 0 {
 			t.x.Fail("C14/dead-connection-reused", "a call to %q failed with %q but every connection that was pooled when the server died has already failed once: a dead connection was handed out again; events: %v", addr, err.Error(), t.log)
@@ -168,7 +189,21 @@ func (t *trSys) kill(addr string) {
 	}
 	t.srv[addr].Close()
 	t.up[addr] = false
-	vs.Quiesce()
+	t.kills++
+	// the server is really gone: its listener has stopped and it has closed every accepted connection
+	// (independent of client-side threads that may be stalled)
+	vs.Block("wait for the server to be down", func() bool {
+		if l := t.n.lis[addr]; l != nil && !l.closed {
+			return false
+		}
+		for _, c := range t.n.conns {
+			if c.addr == addr && !c.end.p.closed[1] && !c.end.p.closed[0] {
+				return false
+			}
+		}
+		return true
+	})
+	t.settle()
 	t.deadBudget[addr] = t.n.live[addr]
 	t.log = append(t.log, "kill("+addr+")")
 }
@@ -178,7 +213,8 @@ func (t *trSys) restart(addr string) {
 		return
 	}
 	t.start(addr)
-	vs.Quiesce()
+	vs.Block("wait for the listener", func() bool { l := t.n.lis[addr]; return l != nil && !l.closed })
+	t.settle()
 	t.log = append(t.log, "restart("+addr+")")
 }
 
@@ -199,13 +235,13 @@ func (t *trSys) advance(d time.Duration, what string) {
 
 func (t *trSys) longCall(addr string) {
 	c := newUcall(t.tag(), fGate, 30, formCall)
-	l := &trLong{c: c, addr: addr}
+	l := &trLong{c: c, addr: addr, kills: t.kills, budget0: t.deadBudget[addr]}
 	t.long = append(t.long, l)
 	vs.GoNamed("longcall", func() {
 		c.err = t.tr.Call(addr, c.method, &c.args, &c.reply)
 		c.ret = true
 	})
-	vs.Quiesce()
+	t.settle()
 	t.log = append(t.log, "long("+addr+")")
 }
 
@@ -255,6 +291,18 @@ func (t *trSys) finish(judgeBusy bool) {
 		}
 	} else {
 		t.release()
+		if t.prop == "C14" {
+			for _, l := range t.long {
+				if l.kills == t.kills && t.up[l.addr] && (!l.c.ret || l.c.err != nil) {
+					// started on a live server that was never killed afterwards
+					if (l.c.err == rpc.ErrShutdown || l.c.err == io.EOF || l.c.err == errBrokenPipe) && l.budget0 > 0 {
+						// it may have been handed a pooled connection that had died but not yet failed a call
+						continue
+					}
+					x.Fail("C14/call-on-live-server-failed", "a call started while %q was reachable (and never killed afterwards) ended with returned=%v err=%v; events: %v", l.addr, l.c.ret, l.c.err, t.log)
+				}
+			}
+		}
 	}
 	for _, s := range t.streams {
 		s.st.Close()
@@ -316,7 +364,7 @@ func (t *trSys) do(ev int) {
 	case evRestartA:
 		t.restart("a")
 	}
-	vs.Quiesce()
+	t.settle()
 	t.checkLimits("after " + trEvNames[ev])
 }
 
@@ -334,9 +382,14 @@ var trLimits = [][2]int{{1, 1}, {2, 1}, {2, 2}, {0, 0}, {1, 3}, {3, 2}}
 
 // sequential driver: every event sequence of length L over the given alphabet
 func trSeqBody(prop string, L int, alphabet []int, limits [][2]int, prefix ...int) func(x *X) {
+	return trSeqBodyK(prop, false, L, alphabet, limits, prefix...)
+}
+
+func trSeqBodyK(prop string, keep bool, L int, alphabet []int, limits [][2]int, prefix ...int) func(x *X) {
 	return func(x *X) {
 		lim := limits[x.Choose(len(limits))]
 		t := newTrSys(x, prop, lim[0], lim[1])
+		t.keep = keep
 		var evs []int
 		for _, ev := range prefix {
 			t.do(ev)
@@ -416,6 +469,13 @@ func init() {
 	register(&Scenario{Prop: "C14", Name: "c14/recovery-L4", Quick: []Bound{{0, 0}}, Thorough: []Bound{{1, 0}}, Body: trSeqBody("C14", 4, rec, trLimits[:3], evCallA, evKillA), MaxSteps: 200000})
 	register(&Scenario{Prop: "C14", Name: "c14/recovery2-L4", Quick: []Bound{{0, 0}}, Thorough: []Bound{{1, 0}}, Body: trSeqBody("C14", 4, rec, trLimits[1:3], evLongA, evCallA, evRelease, evKillA), MaxSteps: 200000})
 	register(&Scenario{Prop: "C14", Name: "c14/recovery-L6", Thorough: []Bound{{0, 0}}, Quick: []Bound{}, Body: trSeqBody("C14", 6, rec, trLimits[:3], evCallA, evKillA), MaxSteps: 200000, BudgetT: 200})
+	// two hosts whose connections expire in the same housekeeping tick
+	two := []int{evCallA, evCallB, evTick, evPastKeepAlive, evPastIdle}
+	register(&Scenario{Prop: "C14", Name: "c14/two-hosts-L4", Quick: []Bound{{0, 0}}, Thorough: []Bound{{1, 0}}, Body: trSeqBody("C14", 4, two, [][2]int{{2, 2}, {3, 2}, {1, 1}}, evCallA, evCallB), MaxSteps: 200000})
+	// a call sharing the pooled connection returns late (stalled thread) across kill / restart / re-dial
+	late := []int{evCallA, evRestartA, evLongA, evTick, evKillA}
+	register(&Scenario{Prop: "C14", Name: "c14/late-return-L3", Quick: []Bound{{1, 0}}, Thorough: []Bound{{2, 0}}, Body: trSeqBodyK("C14", true, 3, late, trLimits[:2], evLongA, evKillA), MaxSteps: 200000})
+	register(&Scenario{Prop: "C14", Name: "c14/late-return-L4", Quick: []Bound{}, Thorough: []Bound{{1, 0}}, Body: trSeqBodyK("C14", true, 4, late, trLimits[:2], evLongA, evKillA), MaxSteps: 200000, BudgetT: 300})
 	register(&Scenario{Prop: "C14", Name: "c14/concurrent", Quick: []Bound{{1, 0}}, Thorough: []Bound{{2, 0}}, Body: trConcBody("C14", trLimits[:3]), MaxSteps: 200000})
 	register(&Scenario{Prop: "C15", Name: "c15/seq-L4", Quick: []Bound{{0, 0}}, Thorough: []Bound{{1, 0}}, Body: trSeqBody("C15", 4, c15ab, trLimits[:3]), MaxSteps: 200000})
 }
